@@ -26,7 +26,7 @@ BUDGET = {"quick": (16, 0), "thorough": (16, 0)}
 G = 4
 KINDS = ["sync", "gthread", "gevent", "eventlet"]
 BINDS = ["tcp", "unix", "tcp-name", "tcp6"]        # numeric IPv4, unix path, host name, IPv6 literal
-NHIST = 12
+NHIST = 14
 
 
 def cells():
@@ -46,11 +46,20 @@ def cells():
             # moment widens the window between fork() and the worker installing its own signal handlers)
             {"pre": [], "workers": [3, 2], "slow_boot": 0.4},
             {"pre": ["TTIN"], "workers": [2, 2, 1], "slow_boot": 0.3},
+            # the next HUP arrives while the previous reload is still running (an on_reload hook that takes a moment; the file has been
+            # edited again by then): the last configuration must win
+            {"pre": [], "workers": [3, 2], "slow_reload": 0.6},
+            {"pre": [], "workers": [2, 3, 1], "slow_reload": 0.5},
         ][hist]
         c = {"kind": kind, "bind": bind, "start_workers": 2, "pre": h["pre"], "workers": h["workers"], "hist": hist}
         if h.get("slow_boot"):
             c["slow_boot"] = h["slow_boot"]
+        if h.get("slow_reload"):
+            c["slow_reload"] = h["slow_reload"]
         yield c
+    # the bind address was changed by an earlier reload; the reloads that are judged keep it
+    for kind in KINDS:
+        yield {"kind": kind, "bind": "unix", "start_workers": 2, "pre": [], "workers": [2, 3], "hist": NHIST + 2, "rebind": True}
     # two listeners: the request in flight across the HUP is on one of them, the short requests go to the first
     for kind, which in itertools.product(KINDS, [0, 1]):
         yield {"kind": kind, "bind": "unix", "start_workers": 1, "pre": [], "workers": [1], "hist": NHIST + which, "two_binds": which}
@@ -66,16 +75,16 @@ def extra_cases(tier, seed, shard, nshards):
                 seen.add((c["kind"], c["bind"]))
                 seen.add(("h", c["hist"]))
                 picked.append(c)
-        two = [c for c in cs if c.get("two_binds") is not None]       # the two-listener cells are all kept
+        two = [c for c in cs if c.get("two_binds") is not None or c.get("rebind")]       # the two-listener and moved-listener cells are all kept
         picked = [c for c in picked if c not in two]
-        cs = two + (picked + [c for c in cs if c not in picked and c not in two])[:32 - len(two)]
+        cs = two + (picked + [c for c in cs if c not in picked and c not in two])[:36 - len(two)]
     for i, c in enumerate(cs):
         if i % nshards == shard:
             j = int(hashlib.sha1(("%d-%d" % (seed, i)).encode()).hexdigest()[:4], 16) / 65535.0
-            yield dict(c, gap=round(0.05 + 0.25 * j, 2) if c.get("slow_boot") else round(0.2 + 0.8 * j, 2))
+            yield dict(c, gap=round(0.05 + 0.25 * j, 2) if (c.get("slow_boot") or c.get("slow_reload")) else round(0.2 + 0.8 * j, 2))
 
 
-EXHAUSTIVE_NOTE = "(+ 8 two-listener cells) thorough: all %d cells (4 classes x %d bind spellings x %d histories); quick: a seeded slice of up to 32 covering every class x bind and every history" % (4 * len(BINDS) * NHIST, len(BINDS), NHIST)
+EXHAUSTIVE_NOTE = "(+ 8 two-listener cells) thorough: all %d cells (4 classes x %d bind spellings x %d histories); quick: a seeded slice of up to 36 covering every class x bind and every history" % (4 * len(BINDS) * NHIST, len(BINDS), NHIST)
 
 
 class Load(threading.Thread):
@@ -117,6 +126,8 @@ def run_case(case):
     kind, bind = case["kind"], case["bind"]
     classes = ["kind:" + kind, "bind:" + bind, "hist:%d" % case["hist"]]
     slow = (["import time", "def post_fork(server, worker):", "    time.sleep(%s)" % case["slow_boot"]] if case.get("slow_boot") else [])
+    if case.get("slow_reload"):
+        slow = ["import time", "def on_reload(server):", "    time.sleep(%s)" % case["slow_reload"]]
     second = None
     if case.get("two_binds") is not None:
         import os as _os
@@ -125,7 +136,7 @@ def run_case(case):
     srv = renv.Server(kind=kind, workers=None, bind=bind, graceful=G, timeout=30,
                       threads=2 if kind == "gthread" else None, keepalive=2,
                       conf_lines=["workers = %d" % case["start_workers"], "raw_env = ['VERIF_MARKER=m0']"] + slow,
-                      extra_binds=["unix:" + second] if second else ())
+                      extra_binds=["unix:" + second] if second else (), bind_in_conf=bool(case.get("rebind")))
     vio = []
 
     def V(clause, sig, observed=None, expected=None):
@@ -136,6 +147,18 @@ def run_case(case):
     try:
         if not srv.wait_ready():
             return Outcome([], False, classes + ["inconclusive:not-ready"], sample={"case": case})
+        if case.get("rebind"):
+            # an earlier reload moves the listener (not judged: nobody is connected); everything after it keeps the new address
+            moved = srv.scratch + "/moved.sock"
+            slow = slow + ["bind = 'unix:%s'" % moved]
+            srv.write_conf(["workers = %d" % case["start_workers"], "raw_env = ['VERIF_MARKER=m0']"] + slow)
+            srv.signal(signal.SIGHUP)
+            srv.addr = srv.sockpath = moved
+            t0 = time.time()
+            while time.time() - t0 < 10 and not renv.connectable(srv):
+                time.sleep(0.1)
+            if not srv.wait_ready(15):
+                return Outcome([], False, classes + ["inconclusive:not-ready-after-rebind"], sample={"case": case})
         for s in case["pre"]:
             srv.signal(getattr(signal, "SIG" + s))
             time.sleep(0.4)
